@@ -60,14 +60,14 @@ Qed.
 Definition forall_sv (P : sv -> bool) : bool :=
   forallb (fun a => forallb (fun b => forallb (fun c => forallb (fun d => forallb (fun e =>
   forallb (fun f => forallb (fun g => forallb (fun h => forallb (fun i => forallb (fun j =>
-  forallb (fun k => forallb (fun l => forallb (fun m => P (mkSv a b c d e f g h i j k l m))
-  all_gs) all_bool) all_bool) all_bool) all_cgo) all_bool) all_bool) all_bool) all_sstage) all_sstage) all_scause_o) all_hstate) all_bool.
+  forallb (fun k => forallb (fun l => forallb (fun l2 => forallb (fun m => P (mkSv a b c d e f g h i j k l l2 m))
+  all_gs) all_bool) all_bool) all_bool) all_bool) all_cgo) all_bool) all_bool) all_bool) all_sstage) all_sstage) all_scause_o) all_hstate) all_bool.
 Lemma forall_sv_ok P : forall_sv P = true -> forall v, P v = true.
 Proof.
-  intros H [a b c d e f g h i j k l m]. unfold forall_sv in H.
+  intros H [a b c d e f g h i j k l l2 m]. unfold forall_sv in H.
   peel H a all_bool_ok. peel H b all_hstate_ok. peel H c all_scause_o_ok. peel H d all_sstage_ok.
   peel H e all_sstage_ok. peel H f all_bool_ok. peel H g all_bool_ok. peel H h all_bool_ok.
-  peel H i all_cgo_ok. peel H j all_bool_ok. peel H k all_bool_ok. peel H l all_bool_ok.
+  peel H i all_cgo_ok. peel H j all_bool_ok. peel H k all_bool_ok. peel H l all_bool_ok. peel H l2 all_bool_ok.
   peel H m all_gs_ok. exact H.
 Qed.
 
@@ -203,6 +203,8 @@ Definition vinv0 (strict : bool) (v : sv) : bool :=
   implb (hstate_eqb (v_h v) HRet && sstage_eqb (v_hf v) S0) (v_closed v) &&
   implb (is_none (v_fin v))
         (sstage_eqb (v_lf v) S0 && sstage_eqb (v_hf v) S0 && negb (v_closed v) && negb (hstate_eqb (v_h v) HRet)) &&
+  (* the handler's context is cancelled exactly when the stream has been finished (by anyone) *)
+  Bool.eqb (v_ctx v) (negb (is_none (v_fin v))) &&
   (* with reads confined to the handler's goroutine, a stream the handler ended has nothing
      after its close frame *)
   implb strict
